@@ -1124,6 +1124,35 @@ def _template_atoms():
 
 _template_atoms()
 
+# ---- class-scope constants of every access level used where their text is copied into the code ----
+def _classconst_atom():
+    levels = (("pri", "private"), ("pro", "protected"), ("pub", "public"))
+    kinds = (("c", "static const int %s = %d;"), ("x", "static constexpr int %s = %d;"), ("e", "enum { %s = %d };"))
+    out = ["template<int N>\nclass VcBuf {\n__published:\n  VcBuf() {}\n  int n() const { return N; }\n};\n",
+           "class VcRing {\n"]
+    names = []
+    v = 3
+    for lt, lk in levels:
+        out.append("%s:\n" % lk)
+        for kt, decl in kinds:
+            n = "%s_%s" % (lt, kt)
+            out.append("  " + decl % (n, v) + "\n")
+            names.append(n)
+            v += 1
+    out.append("__published:\n  VcRing() {}\n")
+    for n in names:
+        out.append("  int a_%s[%s];\n" % (n, n))                                   # array bound of a member
+        out.append("  int b_%s[%s + 2 * %s];\n" % (n, n, n))
+        out.append("  int d_%s(int v = %s) const { return v; }\n" % (n, n))        # default argument
+        out.append("  int e_%s(int a, int v = %s * 2 + 1) const { return a + v; }\n" % (n, n))
+        out.append("  VcBuf<%s> t_%s() const { return VcBuf<%s>(); }\n" % (n, n, n))   # template argument
+        out.append("  int u_%s(const VcBuf<%s> &b) const { return b.n(); }\n" % (n, n))
+    out.append("};\n")
+    atom("classconsts", "nasty", "".join(out))
+
+
+_classconst_atom()
+
 ATOM_BY_NAME = {a.name: a for a in ATOMS}
 GROUPS = {}
 for _a in ATOMS:
